@@ -1,6 +1,6 @@
 (* C12 — iterators yield every entry exactly once, in order, from both ends (list-level part).
    The pointer-level cursors of src/iter.rs are related to take_ends in Layer B (B/CursorB.v). *)
-Require Import LruV.A.TakeEnds LruV.A.InvA.
+Require Import LruV.A.TakeEnds LruV.A.InvA LruV.B.TakingB.
 
 (* the list-level specification: for ANY pattern of next()/next_back() calls (any length, past exhaustion)
    on ANY list: what came from the front is a prefix in order, what came from the back is a suffix in
@@ -43,6 +43,20 @@ Theorem C12_into_iter : forall s kind pat f,
       e_hashes := 0; e_rebuilt := false; e_visits := [] |}).
 Proof. intros. unfold do_into_iter. destruct (take_ends (ents s) pat). reflexivity. Qed.
 
+(* pointer level (Layer B): the cursors of Iter (and Keys / Values, which wrap it) started on a coherent
+   structure yield exactly take_ends of the LRU-first list, for every pattern; they only read links *)
+Theorem C12_cursor : forall h seal l pat, RI h seal l ->
+  exists c, cursor_new h seal (match l with [] => true | _ => false end) = Some c /\ it_run h c pat = Some (fst (take_ends (rev l) pat)).
+Proof. exact iter_on_RI. Qed.
+
+(* pointer level: the TakingIterator behind drain / into_iter / into_keys / into_values yields take_ends and
+   moves out exactly what it yielded *)
+Theorem C12_taking : forall pat M h stale, NoDup M -> linked h M -> (forall a, In a M -> live h a) ->
+  exists h', tk_run h (start M stale) pat = Some (h', map (fun o => match o with Some a => kv_at h a | None => None end) (fst (take_ends M pat))) /\
+             moved_exactly h h' (somes (fst (take_ends M pat))) /\ (forall a, In a (snd (take_ends M pat)) -> live h' a) /\
+             NoDup (somes (fst (take_ends M pat))) /\ (forall a, In a (somes (fst (take_ends M pat))) -> In a M).
+Proof. exact tk_spec. Qed.
+
 Example C12_example : take_ends [1; 2; 3; 4; 5] [true; false; false; false; true; false; true]
   = ([Some 1; Some 5; Some 4; Some 3; Some 2; None; None], []).
 Proof. reflexivity. Qed.
@@ -51,3 +65,5 @@ Print Assumptions C12_split.
 Print Assumptions C12_fused.
 Print Assumptions C12_drain.
 Print Assumptions C12_into_iter.
+Print Assumptions C12_cursor.
+Print Assumptions C12_taking.
